@@ -65,6 +65,22 @@ func main() {
 			e.Strs("sortedDocsReturns", last, "writeSortedDocs: the successful return statement")
 		}
 
+		// disk/docs_reader.go: the key under which a doc block is cached
+		if f, err := r.Load("disk/docs_reader.go"); err != nil {
+			e.Missing("docsCacheKeyExpr", err)
+		} else if fd := f.Func("DocsReader", "ReadDocsFunc"); fd == nil {
+			e.Missing("docsCacheKeyExpr", "ReadDocsFunc not found")
+		} else {
+			var keys []string
+			ast.Inspect(fd.Body, func(n ast.Node) bool {
+				if c, ok := n.(*ast.CallExpr); ok && strings.HasSuffix(f.Render(c.Fun), "cache.GetWithError") && len(c.Args) >= 1 {
+					keys = append(keys, f.Render(c.Args[0]))
+				}
+				return true
+			})
+			e.Strs("docsCacheKeyExpr", keys, "DocsReader.ReadDocsFunc: cache key of a doc block")
+		}
+
 		// sealed_ids.go: the reader's block index function
 		if f, err := r.Load("frac/sealed_ids.go"); err != nil {
 			e.Missing("idBlockIndexExpr", err)
@@ -180,5 +196,5 @@ func main() {
 			})
 			e.Strs("lidExtLoadExpr", as, "Loader.loadLIDsBlocksTable: appended values")
 		}
-	}, "consts/consts.go", "seq/doc_pos.go", "frac/active_sealer.go", "frac/sealed_ids.go", "frac/disk_blocks_producer.go", "frac/lids/block.go", "frac/sealed_loader.go")
+	}, "consts/consts.go", "disk/docs_reader.go", "seq/doc_pos.go", "frac/active_sealer.go", "frac/sealed_ids.go", "frac/disk_blocks_producer.go", "frac/lids/block.go", "frac/sealed_loader.go")
 }
